@@ -1,42 +1,78 @@
 ------------------------------ MODULE Candidates ------------------------------
 (***************************************************************************)
-(* Candidate book-keeping of block execution (app/app.go):                 *)
-(*   processBlock      : TxsResult.SetCandidates(copy of the last list)    *)
-(*   processBlockEvidence : produce counter / score of the candidates      *)
-(*                          named by the block's evidence, in list AND in  *)
-(*                          the Candidates contract storage                *)
-(*   CommitBlock -> updateCandidatesbyOrder : reorder / drop (no election: *)
-(*                          heights below VotePeriod = 1321)               *)
-(* The next list is part of "the next validator candidates" of property    *)
-(* C05: it must be a function of (previous list, contract state, block).   *)
-(* One action = one block; the replay executes it on several replicas that *)
-(* run the block a different number of times.                              *)
+(* Candidate book-keeping of block execution (app/app.go), on several      *)
+(* nodes that execute the same chain:                                      *)
+(*   CheckBlock/PreRunBlock -> processBlock:                               *)
+(*        TxsResult.SetCandidates(copy of the last list);                  *)
+(*        processBlockEvidence: produce counter / score of the candidates  *)
+(*        named by the block's evidence, in the list AND in the Candidates *)
+(*        contract storage                                 (action Exec)   *)
+(*   CommitBlock(block, seenCommit) -> updateCandidatesbyOrder(result,     *)
+(*        block.LastCommit.Hash()):                        (action Commit) *)
+(*        height % VotePeriod # 0 : reorder / drop                         *)
+(*        height % VotePeriod = 0 : ELECTION - calculateCandidates: the    *)
+(*            list is rebuilt from the contract storage (score > 0), with  *)
+(*            the pledge deposit, a random number per candidate drawn from *)
+(*            Keccak(hash, address), CalRank and the weighted RandomSort   *)
+(*            salted with the hash; fresh produce counters; Rank = index   *)
+(*        getValidators: the head of the list is the next validator set    *)
+(* "The next validator candidates" of property C05 must be a function of   *)
+(* (previous list, contract state, block).  A block is (evidence, seed):   *)
+(* seed abstracts block.LastCommit.Hash() to what the election makes of    *)
+(* it - the order PermOf[seed] it induces on the candidates and the random *)
+(* numbers drawn from it.  CommitBlock also receives a NODE-LOCAL input,   *)
+(* the seen commit (the +2/3 precommits that node happened to collect, or, *)
+(* on the fast-sync path, the LastCommit of the following block): every    *)
+(* replica commits with its own `seen`, over all choices, and the stored   *)
+(* list, the next validators and the contract state must not depend on it. *)
+(* SeedFromSeen = TRUE is the what-if in which the election is seeded from *)
+(* the seen commit: TLC then violates ReplicasAgree.                       *)
 (***************************************************************************)
 EXTENDS Integers, Sequences, FiniteSets, TLC, Json
 
-CONSTANTS Cand,        \* candidates at genesis (list order = CandOrder)
-          CandOrder,   \* sequence over Cand
+CONSTANTS Cand,        \* candidates registered in the Candidates contract
+          CandOrder,   \* sequence over Cand: the stored list at genesis (registered candidates may be missing from it)
           Other,       \* validators that are not candidates
           MaxScore,    \* Coefficient.MaxScore (500)
           InitScore,   \* [Cand -> Int] score at genesis (list and contract agree)
           MaxH,        \* heights explored
-          MaxEv        \* evidence items per block
+          EvBound,     \* sequence: evidence items a block of height h may carry
+          VotePeriod,  \* Coefficient.VotePeriod: an election at every height that is a multiple of it
+          Pledge,      \* [Cand -> Int] deposit in the pledge contract (whole coins)
+          InitDeposit, \* deposit recorded in the genesis list
+          Seeds,       \* classes of LastCommit hashes
+          PermOf,      \* [Seeds \cup {"empty"} -> permutation of Cand] the order a hash of that class induces
+          RepOrder,    \* sequence of replicas (they commit a block in this order; they share nothing)
+          SeedFromSeen,\* what-if: CommitBlock seeds the election from the seen commit
+          Nume, Deno, UpperLimit  \* Coefficient.VoteRate: len*Nume/Deno candidates, at most UpperLimit, become validators
 
 TwoConsecutive == 2
 Threshold      == 3
 Punish         == -10
 
-VARIABLES list,    \* sequence of candidates (the stored TxsResult.Candidates, in order)
-          prod,    \* [Cand -> Int]  ProduceInfo of the list entry
-          score,   \* [Cand -> Int]  Score of the list entry
-          cscore,  \* [Cand -> Int]  Score in the Candidates contract storage
-          h,
-          last     \* label of the last block (hidden by VIEW)
-vars == <<list, prod, score, cscore, h, last>>
-View == <<list, prod, score, cscore, h>>
+\* the instance, for the replay (genesis of the real application is built from it)
+ASSUME PrintT(ToJson([consts |-> [period |-> VotePeriod, pledge |-> Pledge, initDeposit |-> InitDeposit, order |-> CandOrder,
+                                  initScore |-> InitScore, maxScore |-> MaxScore, nume |-> Nume, deno |-> Deno, upper |-> UpperLimit,
+                                  perm |-> PermOf, replicas |-> RepOrder, maxH |-> MaxH, seedFromSeen |-> SeedFromSeen]]))
+
+VARIABLES node,    \* [replica -> N]: what the replica holds; N = [list, prod, score, dep, drawn, cscore]
+                   \*   list   the stored TxsResult.Candidates, in order (Rank = index)
+                   \*   prod   ProduceInfo, score Score, dep Deposit of the list entries
+                   \*   drawn  the class of the hash the Rand numbers of the list were drawn from
+                   \*   cscore Score in the Candidates contract storage (part of the state hash)
+                   \* while a block is open and the replica has not committed it, this is its processBlock result
+          open,    \* a block has been executed (CheckBlock) and not yet committed by every replica
+          seed,    \* class of the open block's LastCommit hash
+          pc,      \* replicas RepOrder[1..pc] have committed the open block
+          h,       \* height committed by every replica
+          last     \* label of the last step (hidden by VIEW)
+vars == <<node, open, seed, pc, h, last>>
+View == <<node, open, seed, pc, h>>
 
 Keys == Cand \cup Other
 Range(s) == {s[i] : i \in 1..Len(s)}
+Replica == Range(RepOrder)
+R == Len(RepOrder)
 
 \* evidence items a block may carry
 Items ==
@@ -45,18 +81,17 @@ Items ==
  \cup {[k |-> "fault", p |-> c, f |-> d] : c \in Cand, d \in Other}
  \cup {[k |-> "dup",   p |-> c, f |-> c] : c \in Cand}                       \* DuplicateVoteEvidence
 
-EvLists == UNION {[1..n -> Items] : n \in 0..MaxEv}
+EvLists(n) == UNION {[1..m -> Items] : m \in 0..n}
 
-St == [prod : [Cand -> Int], score : [Cand -> Int], cscore : [Cand -> Int]]
-
+(* ---- processBlockEvidence (only candidates of the last list are touched) -- *)
 Award(s, c, in) ==
   IF ~(c \in in) THEN s ELSE
   LET p0 == IF s.prod[c] < 0 THEN 0 ELSE s.prod[c]
       p1 == p0 + 1
   IN IF p1 > TwoConsecutive
-       THEN [prod   |-> [s.prod EXCEPT ![c] = 0],
-             cscore |-> [s.cscore EXCEPT ![c] = IF @ < MaxScore THEN @ + 1 ELSE @],
-             score  |-> [s.score EXCEPT ![c] = IF @ < MaxScore THEN @ + 1 ELSE @]]
+       THEN [s EXCEPT !.prod[c] = 0,
+                      !.cscore[c] = IF @ < MaxScore THEN @ + 1 ELSE @,
+                      !.score[c] = IF @ < MaxScore THEN @ + 1 ELSE @]
        ELSE [s EXCEPT !.prod[c] = p1]
 
 Punishment(s, c, in) ==
@@ -64,14 +99,14 @@ Punishment(s, c, in) ==
   LET p0 == IF s.prod[c] > 0 THEN 0 ELSE s.prod[c]
       p1 == p0 - 1
   IN IF p1 <= -TwoConsecutive
-       THEN [prod   |-> [s.prod EXCEPT ![c] = p1],
-             cscore |-> [s.cscore EXCEPT ![c] = IF @ > 1 THEN @ - 1 ELSE @],
-             score  |-> [s.score EXCEPT ![c] = IF @ > 1 THEN @ - 1 ELSE @]]
+       THEN [s EXCEPT !.prod[c] = p1,
+                      !.cscore[c] = IF @ > 1 THEN @ - 1 ELSE @,
+                      !.score[c] = IF @ > 1 THEN @ - 1 ELSE @]
        ELSE [s EXCEPT !.prod[c] = p1]
 
 Clear(s, c, in) ==
   IF ~(c \in in) THEN s ELSE
-  [prod |-> [s.prod EXCEPT ![c] = Punish], cscore |-> [s.cscore EXCEPT ![c] = 0], score |-> [s.score EXCEPT ![c] = 0]]
+  [s EXCEPT !.prod[c] = Punish, !.cscore[c] = 0, !.score[c] = 0]
 
 ApplyItem(s, e, in) ==
   CASE e.k = "award" -> Award(s, e.p, in)
@@ -81,44 +116,102 @@ ApplyItem(s, e, in) ==
 RECURSIVE ApplyAll(_, _, _, _)
 ApplyAll(s, evs, i, in) == IF i > Len(evs) THEN s ELSE ApplyAll(ApplyItem(s, evs[i], in), evs, i + 1, in)
 
+Process(n, evs) == ApplyAll(n, evs, 1, Range(n.list))
+
+(* ---- CommitBlock ----------------------------------------------------------- *)
+\* entries of candidates outside the list do not exist: the functions are kept canonical
+Canon(n) == LET in == Range(n.list) IN
+  [n EXCEPT !.prod  = [c \in Cand |-> IF c \in in THEN n.prod[c] ELSE 0],
+            !.score = [c \in Cand |-> IF c \in in THEN n.score[c] ELSE 0],
+            !.dep   = [c \in Cand |-> IF c \in in THEN n.dep[c] ELSE 0]]
+
 \* updateCandidatesbyOrder below an election height
 Keep(s, c)   == s.prod[c] > -Threshold
 Moved(s, c)  == ~Keep(s, c) /\ s.prod[c] # Punish
-Init == /\ list = CandOrder
-        /\ prod = [c \in Cand |-> 0]
-        /\ score = InitScore
-        /\ cscore = InitScore
+Reorder(s1) ==
+  LET kept  == SelectSeq(s1.list, LAMBDA c : Keep(s1, c))
+      moved == SelectSeq(s1.list, LAMBDA c : Moved(s1, c))
+  IN Canon([s1 EXCEPT !.list = kept \o moved,
+                      !.prod = [c \in Cand |-> IF c \in Range(moved) THEN 0 ELSE s1.prod[c]]])
+
+\* calculateCandidates: a function of the contract state and the hash, nothing else
+Elect(s1, sd) ==
+  LET elig == {c \in Cand : s1.cscore[c] > 0}
+  IN Canon([s1 EXCEPT !.list  = SelectSeq(PermOf[sd], LAMBDA c : c \in elig),
+                      !.prod  = [c \in Cand |-> 0],
+                      !.score = s1.cscore,
+                      !.dep   = Pledge,
+                      !.drawn = sd])
+
+Election(height) == height % VotePeriod = 0
+CommitFn(s1, height, sd) == IF Election(height) THEN Elect(s1, sd) ELSE Reorder(s1)
+
+\* getValidators(canList): what CommitBlock returns (without the inner validators of the white list)
+NumVals(l) == LET k == (Len(l) * Nume) \div Deno IN IF k > UpperLimit THEN UpperLimit ELSE k
+Vals(n) == SubSeq(n.list, 1, NumVals(n.list))
+
+NoSeed == "none"
+Init == /\ node = [r \in Replica |-> Canon([list |-> CandOrder, prod |-> [c \in Cand |-> 0], score |-> InitScore,
+                                            dep |-> [c \in Cand |-> InitDeposit], drawn |-> NoSeed, cscore |-> InitScore])]
+        /\ open = FALSE
+        /\ seed = NoSeed
+        /\ pc = 0
         /\ h = 0
-        /\ last = [evs |-> <<>>]
+        /\ last = [op |-> "init"]
 
-Block(evs) ==
-  /\ h < MaxH
-  /\ LET in == Range(list)
-         s1 == ApplyAll([prod |-> prod, score |-> score, cscore |-> cscore], evs, 1, in)
-         kept  == SelectSeq(list, LAMBDA c : Keep(s1, c))
-         moved == SelectSeq(list, LAMBDA c : Moved(s1, c))
-         s2 == [s1 EXCEPT !.prod = [c \in Cand |-> IF c \in Range(moved) THEN 0 ELSE s1.prod[c]]]
-     IN /\ list' = kept \o moved
-        /\ prod' = s2.prod
-        /\ score' = s2.score
-        /\ cscore' = s2.cscore
-  /\ h' = h + 1
-  /\ last' = [evs |-> evs]
+\* the block of height h+1 is executed by every replica (proposer: PreRunBlock + CheckBlock, validators and
+\* fast sync: CheckBlock); the first block carries the empty commit
+Exec(evs, sd) ==
+  /\ ~open /\ h < MaxH
+  /\ node' = [r \in Replica |-> Process(node[r], evs)]
+  /\ open' = TRUE /\ seed' = sd /\ pc' = 0 /\ h' = h
+  /\ last' = [op |-> "exec", evs |-> evs, seed |-> sd, election |-> Election(h + 1), period |-> VotePeriod]
 
-Next == \E evs \in EvLists : Block(evs)
+\* CommitBlock(block, seen) on the next replica; the replica's seen commit is any valid commit of the block
+Commit(sn) ==
+  /\ open
+  /\ LET r == RepOrder[pc + 1]
+         sd == IF SeedFromSeen THEN sn ELSE seed
+     IN /\ node' = [node EXCEPT ![r] = CommitFn(@, h + 1, sd)]
+        /\ last' = [op |-> "commit", r |-> r, seen |-> sn]
+  /\ IF pc + 1 = R
+       THEN open' = FALSE /\ seed' = NoSeed /\ pc' = 0 /\ h' = h + 1
+       ELSE open' = TRUE /\ seed' = seed /\ pc' = pc + 1 /\ h' = h
+
+\* The class of a hash is what an election makes of it: at the other heights CommitFn does not look at the
+\* hash and there is one class. (The replay gives every replica its own commit at every height.)
+AnySeed == "any"
+SeedsAt(height) == IF Election(height) THEN Seeds ELSE {AnySeed}
+Next == \/ /\ h < MaxH
+           /\ \E evs \in EvLists(EvBound[h + 1]), sd \in (IF h = 0 THEN {"empty"} ELSE SeedsAt(h + 1)) : Exec(evs, sd)
+        \/ \E sn \in SeedsAt(h + 1) : Commit(sn)
 Spec == Init /\ [][Next]_vars
 
 (* ---- what the design promises ------------------------------------------- *)
-TypeOK == /\ Range(list) \subseteq Cand
-          /\ \A i, j \in 1..Len(list) : i # j => list[i] # list[j]
-ScoreInRange == \A c \in Range(list) : score[c] >= 0 /\ score[c] <= MaxScore
+Done(r) == \E i \in 1..pc : RepOrder[i] = r          \* r has committed the open block
+Lists == {node[r].list : r \in Replica}
+TypeOK == /\ \A l \in Lists : Range(l) \subseteq Cand /\ \A i, j \in 1..Len(l) : i # j => l[i] # l[j]
+          /\ pc \in 0..(R - 1) /\ h \in 0..MaxH
+\* C05: replicas in the same stage hold the same list (order, counters, score, deposit, random numbers),
+\* the same contract state and return the same next validators - whatever their seen commits were
+ReplicasAgree == \A r1, r2 \in Replica : (Done(r1) <=> Done(r2)) => node[r1] = node[r2]
+NextValidatorsAgree == \A r1, r2 \in Replica : (Done(r1) <=> Done(r2)) => Vals(node[r1]) = Vals(node[r2])
+Committed(r) == ~open \/ Done(r)
+ScoreInRange == \A r \in Replica : \A c \in Range(node[r].list) : node[r].score[c] >= 0 /\ node[r].score[c] <= MaxScore
 \* the list's copy of the score never drifts from the contract's
-ListMirrorsContract == \A c \in Range(list) : score[c] = cscore[c]
+ListMirrorsContract == \A r \in Replica : \A c \in Range(node[r].list) : node[r].score[c] = node[r].cscore[c]
 \* a candidate whose score was cleared by a duplicate vote leaves the list at the commit
 \* (unless a later item of the same block moved its counter off the marker)
-ProdBounded == \A c \in Range(list) : prod[c] > -Threshold /\ prod[c] <= TwoConsecutive
+ProdBounded == \A r \in Replica : Committed(r) =>
+                 \A c \in Range(node[r].list) : node[r].prod[c] > -Threshold /\ node[r].prod[c] <= TwoConsecutive
+\* an elected list is exactly the scored candidates of the contract, with fresh counters and the pledge deposit
+ElectedFromContract == \A r \in Replica : (Committed(r) /\ (IF open THEN h + 1 ELSE h) > 0 /\ Election(IF open THEN h + 1 ELSE h)) =>
+                 /\ Range(node[r].list) = {c \in Cand : node[r].cscore[c] > 0}
+                 /\ \A c \in Range(node[r].list) : node[r].prod[c] = 0 /\ node[r].dep[c] = Pledge[c]
 
-Edge == PrintT(ToJson([from |-> [list |-> list, prod |-> prod, score |-> score, cscore |-> cscore, h |-> h],
-                       act  |-> last',
-                       to   |-> [list |-> list', prod |-> prod', score |-> score', cscore |-> cscore', h |-> h']]))
+\* under ReplicasAgree the first and the last replica of the commit order determine the state
+Proj == [h |-> h, open |-> open, seed |-> seed, pc |-> pc,
+         a |-> node[RepOrder[1]], z |-> node[RepOrder[R]],
+         avals |-> Vals(node[RepOrder[1]]), zvals |-> Vals(node[RepOrder[R]])]
+Edge == PrintT(ToJson([from |-> Proj, act |-> last', to |-> Proj']))
 ===============================================================================
